@@ -292,6 +292,7 @@ func factsC08(r *Repo) []Fact {
 		out = append(out, boolFact(fw.fact, ok, "schema/"+file+": "+fw.recv+".toStream"))
 	}
 	out = append(out, c08EOFByIdentity(sp))
+	out = append(out, factsC08Late(r)...) // c08_late.go: mergeTakes, mergeChildViaToStream, mergeArrayFromIndex, childRecvIsOwnPeek
 	return out
 }
 
